@@ -105,7 +105,10 @@ func realVerdicts(srcs []string, workers int) []effVerdict {
 	return res
 }
 
-type suspProg struct{ src, toks string }
+type suspProg struct {
+	src, toks string
+	definite  bool // a pure method contains a construct the rule forbids outright
+}
 
 // runEffectsFront: the front-end tie (all `tcheck` ops are emitted here).  It
 // returns the starter of the C runs of suspicious accepted programs, which in
@@ -136,13 +139,27 @@ func runEffectsFront(r *hlib.Run, rnd *hlib.Rand) func(r *hlib.Run, sb *hlib.Std
 	}
 	r.Extra("effects_suspicious_accepted", len(suspicious))
 	// C run of accepted programs in which a pure method contains a write construct
-	maxC := 8
+	maxC := 6
 	if r.Thorough {
 		maxC = 40
 	}
-	if len(suspicious) > maxC {
-		suspicious = suspicious[:maxC]
+	// programs with an outright forbidden construct in a pure method first, and
+	// all of them (up to 4 * maxC; there are none on a correct front end), then
+	// up to maxC of the others
+	var queue []suspProg
+	for _, p := range suspicious {
+		if p.definite && len(queue) < 4*maxC {
+			queue = append(queue, p)
+		}
 	}
+	nMaybe := 0
+	for _, p := range suspicious {
+		if !p.definite && nMaybe < maxC {
+			queue = append(queue, p)
+			nMaybe++
+		}
+	}
+	suspicious = queue
 	return func(r *hlib.Run, sb *hlib.StdBuild, rnd *hlib.Rand) func() {
 		return startEffCRun(r, sb, suspicious, rnd)
 	}
